@@ -18,24 +18,39 @@ What is asserted (only what the statement says):
   * boolean_rows          the set operation on rows
   * blocks                maximal runs of equal values (circular when wrap=True) with
                           min_len <= length <= max_len, optionally of non-zero value
-  * merge_runs            first element of every maximal run
+  * merge_runs            first element of every maximal run (floats: runs of values equal after rounding)
   * group_min             the multiset of per-group minima
   * unique_value_in_row   at most one True per row, on a value occurring once in that row,
                           exactly one when such a value exists
   * float_to_int          the rounding cell (ints / bools unchanged)
-Group order is free; empty groups returned for empty input are dropped before comparison.
+Group order is free.  A returned group / block without members is a violation (a class of equal rows has
+at least one member; callers do `group[0]`): until round 4 such groups were dropped before comparison.
 
 Input classes added after review rounds: rows without columns; two operands of different integer types
 with alias rows (boolean_rows); every integer type in the 1-D primitives; uint64 values above 2^63-1; long
 inputs (run-length encoded in the witness) fed as a history of growing / shrinking lengths.
+Round 4 (each class has fixed members that run in every process plus random ones; a case of such a class carries
+`cls` and is keyed `fn=<function> <class> sym=<symptom>`):
+  * memory layouts of the same values: Fortran order, every second column / row of a wider array whose gaps hold
+    other values, reversed strides, swapped byte order - every function, both operands of boolean_rows / group_min
+  * `digits` on integer input (None, 0, negative, positive) in merge_runs / blocks / the row functions: integers
+    are compared exactly whatever it is; neighbours one and ten apart and at opposite ends of the type's range
+  * float rows whose value * 10^digits is on both sides of 2^63, +-inf; digits up to 19 and negative
+  * float16 / float32 rows (the oracle reads their exact values) where value * 10^digits needs more bits than
+    the type has: chains of neighbouring float32 values, float16 values above 65504 / 10^digits
+  * integer options as numpy integer scalars of every width, where the signature declares `Integer`
+    (digits everywhere, group min_len / max_len, unique_bincount minlength)
+  * merge_runs / blocks on floats whose neighbours are in different cells but at most one cell apart: ramps with
+    sub-cell steps, steps of exactly one cell
 
 Not judged (outside the statement, see notes/C06.md): merge_runs on bool input (documented domain is
 float / int; numpy refuses boolean subtraction); float_to_int on uint64 values above 2^63-1 (documented to
-return int64; the one-to-one wrap is judged through the partitions of the row functions); merge_runs(digits=) is an absolute
-tolerance, not a rounding - only values >= 10 cells apart or <= 0.1 cell apart are generated
-for it; unique_bincount is only given non-negative signed ints (the function's documented
-domain); which occurrence unique_rows / unique_ordered index is not asserted beyond
-reconstruction.
+return int64; the one-to-one wrap is judged through the partitions of the row functions); unique_bincount is
+only given non-negative signed ints (the function's documented domain); which occurrence unique_rows /
+unique_ordered index is not asserted beyond reconstruction; NaN (not equal to itself element-by-element);
+finite floats whose value * 10^digits overflows a double; float_to_int's VALUE once value * 10^digits exceeds
+2^50 (only the partition: the product in doubles is not the exact cell, beyond 2^63 no int64 holds it);
+numpy scalars for options that do not declare them (group_rows require_count, blocks min_len / max_len).
 """
 
 from __future__ import annotations
@@ -62,7 +77,13 @@ RULE = (
     "moved by +-2^8 / 2^16 / 2^32 / 2^64); the 1-D primitives on every integer type with values at the ends, the "
     "middle and the quarter points of the type's range; (f) long inputs given as run-length descriptions, lengths "
     "on both sides of 2^8..2^14 up to 30000, as a call history with ascending then descending lengths, first "
-    "value == last value with short and long first runs (blocks wrap grid, merge_runs, group, unique_ordered). "
+    "value == last value with short and long first runs (blocks wrap grid, merge_runs, group, unique_ordered); "
+    "(g) classes with fixed members in every run plus random members: the same values in 6 memory layouts "
+    "(Fortran, strided columns / rows, reversed, byte-swapped) x every function x both operands; digits in "
+    "{None,0,-1,-2,1,3} on every integer type for merge_runs / blocks; float rows with value*10^digits on both "
+    "sides of 2^63 and +-inf for digits in {None,0,3,12,19}; float16 / float32 rows incl. chains of neighbouring "
+    "float32 values; digits / min_len / max_len / minlength as numpy integer scalars of 7 widths; float ramps with "
+    "sub-cell steps and steps of one cell through merge_runs / blocks. "
     "One case = one call; distinct = distinct (function, dtype, data bytes, options); "
     "trivial = fewer than two rows / elements."
 )
@@ -88,7 +109,9 @@ MIN_EVENTS = {"quick": 20000, "thorough": 100000}
 ASSUMPTIONS = [
     "Python int / tuple / dict equality is element-by-element comparison",
     "float keys: round(Fraction(x) * 10^digits) on values generated >= 0.2 cell away from a rounding boundary",
-    "merge_runs(digits) is a tolerance: only values <= 0.1 cell or >= 10 cells apart are fed to it",
+    "merge_runs on floats is judged like every other function: equal means equal after rounding to `digits`",
+    "finite floats are only generated where value * 10^digits stays inside the range of a double; NaN is not generated",
+    "numpy integer scalars are only passed to options annotated `Integer` in the signature",
     "unique_bincount is only given non-negative signed integers (documented domain of the function)",
     "merge_runs is not given bool arrays (documented domain float / int)",
 ]
@@ -101,6 +124,48 @@ KS = (7, 15, 16, 20, 21, 31, 32, 52, 53, 62, 63)
 # --------------------------------------------------------------------------- helpers
 
 
+def _floats(x):
+    """Witnesses carry non-finite floats as their repr ('inf', '-inf')."""
+    if isinstance(x, (list, tuple)):
+        return [_floats(v) for v in x]
+    return float(x) if isinstance(x, str) else x
+
+
+# memory layouts of one and the same array of values: what changes is strides / byte order only
+LAYOUTS_2D = ("F", "colstep", "colrev", "rowstep", "rowrev", "swapped")
+LAYOUTS_1D = ("rowstep", "rowrev", "swapped")
+# structural class of a layout (goes into keys): is one row still one contiguous piece of memory
+LAYOUT_CLASS = {"F": "rows_strided", "colstep": "rows_strided", "colrev": "rows_strided", "rowstep": "rows_spaced",
+                "rowrev": "rows_spaced", "swapped": "byteswapped"}
+
+
+def relayout(a, layout):
+    """The same values in another memory layout (the gaps of strided views hold OTHER values)."""
+    if layout in (None, "C") or a.ndim == 0:
+        return a
+    junk = (a + 1) if a.dtype.kind != "b" else ~a
+    if layout == "F":
+        out = np.asfortranarray(a)
+    elif layout == "colstep" and a.ndim == 2:
+        wide = np.empty((a.shape[0], 2 * a.shape[1]), dtype=a.dtype)
+        wide[:, ::2], wide[:, 1::2] = a, junk
+        out = wide[:, ::2]
+    elif layout == "colrev" and a.ndim == 2:
+        out = np.ascontiguousarray(a[:, ::-1])[:, ::-1]
+    elif layout == "rowstep":
+        tall = np.empty((2 * a.shape[0],) + a.shape[1:], dtype=a.dtype)
+        tall[::2], tall[1::2] = a, junk
+        out = tall[::2]
+    elif layout == "rowrev":
+        out = np.ascontiguousarray(a[::-1])[::-1]
+    elif layout == "swapped":
+        out = a.astype(a.dtype.newbyteorder())
+    else:
+        return a
+    assert out.shape == a.shape and (out == a).all()
+    return out
+
+
 def mk(case, name="data"):
     # the second operand may have its own dtype (mixed integer types); long inputs are recorded
     # run-length encoded ("rle": [[value, count], ...]) so a witness stays small
@@ -109,25 +174,62 @@ def mk(case, name="data"):
     if rle is not None:
         a = np.repeat(np.array([v for v, _ in rle], dtype=dtype), [int(c) for _, c in rle])
     else:
-        a = np.array(case[name], dtype=dtype)
+        raw = case[name]
+        a = np.array(_floats(raw) if np.dtype(dtype).kind == "f" else raw, dtype=dtype)
     shape = case.get("shape" if name == "data" else name + "_shape")
     if shape is not None:
         a = a.reshape(shape)
-    return a
+    return relayout(a, case.get("layout" if name == "data" else name + "_layout"))
+
+
+def npopt(case, name):
+    """An integer option, as a plain int or - `<name>_type` in the case - as a numpy integer scalar."""
+    v, t = case.get(name), case.get(name + "_type")
+    return v if (v is None or t is None) else np.dtype(t).type(v)
+
+
+HUGE = 10**400  # oracle image of +-inf: above every finite double times 10^digits
 
 
 def keys_of(a, digits=None):
     """Oracle identity of every element (1-D) or row (2-D)."""
     if a.dtype.kind == "f":
-        s = 10 ** (8 if digits is None else int(digits))
+        s = Fraction(10) ** (8 if digits is None else int(digits))
 
         def conv(x):
+            if x in (float("inf"), float("-inf")):
+                return HUGE if x > 0 else -HUGE
             return int(round(Fraction(x) * s))
     else:
         conv = int
     if a.ndim == 1:
         return [conv(x) for x in a.tolist()]
     return [tuple(conv(x) for x in r) for r in a.tolist()]
+
+
+def cell_margin(a, digits=None):
+    """Smallest distance (in cells) of a finite float value from a rounding boundary (k + 0.5)."""
+    s = Fraction(10) ** (8 if digits is None else int(digits))
+    worst = Fraction(1, 2)
+    for x in np.asarray(a, dtype=np.float64).reshape(-1).tolist():
+        if x in (float("inf"), float("-inf")):
+            continue
+        worst = min(worst, abs((Fraction(x) * s) % 1 - Fraction(1, 2)))
+    return float(worst)
+
+
+def out_of_int64(a, digits=None):
+    """Float input some element of which, scaled by 10^digits, no int64 can hold (or is infinite)."""
+    if a.dtype.kind != "f" or a.size == 0:
+        return False
+    return max(abs(k) for k in keys_of(a.reshape(-1), digits)) >= 2**63
+
+
+def inexact_cells(a, digits=None):
+    """Float input whose scaled values are too large for `x * 10^digits` in doubles to be the exact cell."""
+    if a.dtype.kind != "f" or a.size == 0:
+        return False
+    return max(abs(k) for k in keys_of(a.reshape(-1), digits)) >= 2**50
 
 
 def classes(keys):
@@ -182,9 +284,15 @@ def call(run, case, a, fn, *args, opt="", **kw):
     try:
         return True, fn(*args, **kw)
     except Exception as e:  # noqa
-        key = "fn=%s %s%s sym=raises_%s" % (case["fn"], klass(a), (" " + opt) if opt else "", type(e).__name__)
+        key = "fn=%s %s%s sym=raises_%s" % (case["fn"], case.get("cls") or klass(a),
+                                            (" " + opt) if opt and not case.get("cls") else "", type(e).__name__)
         bad(run, case, key, "%s raised %s: %s" % (case["fn"], type(e).__name__, str(e)[:120]))
         return False, None
+
+
+def kbase(case, default):
+    """Key prefix: a case of a named input / option class (`cls`) is keyed by function + that class alone."""
+    return ("fn=%s %s" % (case["fn"], case["cls"])) if case.get("cls") else default
 
 
 def hval(h):
@@ -224,14 +332,14 @@ def chk_hashable_rows(run, case):
 
     a = mk(case)
     digits = case.get("digits")
-    ok, h = call(run, case, a, grouping.hashable_rows, a, digits=digits)
-    run.case("hashable_rows", a, digits, nontrivial=len(a) >= 2)
+    ok, h = call(run, case, a, grouping.hashable_rows, a, digits=npopt(case, "digits"))
+    run.case("hashable_rows", a, digits, case.get("digits_type"), case.get("layout"), nontrivial=len(a) >= 2)
     if not ok:
         return
     keys = keys_of(a, digits)
     hv = hval(h)
     rep = {"V": "void", "u": "packed", "i": "flat"}.get(h.dtype.kind, h.dtype.kind)
-    base = "fn=hashable_rows %s kind=%s rep=%s" % (klass(a), a.dtype.kind, rep)
+    base = kbase(case, "fn=hashable_rows %s kind=%s rep=%s" % (klass(a), a.dtype.kind, rep))
     if len(hv) != len(keys):
         bad(run, case, base + " sym=length", "one hashable per row expected", got=len(hv))
         return
@@ -251,12 +359,12 @@ def chk_unique_rows(run, case):
 
     a = mk(case)
     digits, keep = case.get("digits"), bool(case.get("keep_order", False))
-    ok, res = call(run, case, a, grouping.unique_rows, a, digits=digits, keep_order=keep)
-    run.case("unique_rows", a, digits, keep, nontrivial=len(a) >= 2)
+    ok, res = call(run, case, a, grouping.unique_rows, a, digits=npopt(case, "digits"), keep_order=keep)
+    run.case("unique_rows", a, digits, keep, case.get("digits_type"), case.get("layout"), nontrivial=len(a) >= 2)
     if not ok:
         return
     keys = keys_of(a, digits)
-    base = "fn=unique_rows %s kind=%s keep_order=%d" % (klass(a), a.dtype.kind, keep)
+    base = kbase(case, "fn=unique_rows %s kind=%s keep_order=%d" % (klass(a), a.dtype.kind, keep))
     try:
         u, inv = [int(x) for x in res[0]], [int(x) for x in res[1]]
     except Exception:
@@ -283,13 +391,15 @@ def chk_group_rows(run, case):
 
     a = mk(case)
     digits, rc = case.get("digits"), case.get("require_count")
-    ok, res = call(run, case, a, grouping.group_rows, a, require_count=rc, digits=digits)
-    run.case("group_rows", a, digits, rc, nontrivial=len(a) >= 2)
+    ok, res = call(run, case, a, grouping.group_rows, a, require_count=npopt(case, "require_count"),
+                   digits=npopt(case, "digits"))
+    run.case("group_rows", a, digits, rc, case.get("digits_type"), case.get("require_count_type"), case.get("layout"),
+             nontrivial=len(a) >= 2)
     if not ok:
         return
     keys = keys_of(a, digits)
     cls = classes(keys)
-    base = "fn=group_rows %s kind=%s require_count=%s" % (klass(a), a.dtype.kind, rc)
+    base = kbase(case, "fn=group_rows %s kind=%s require_count=%s" % (klass(a), a.dtype.kind, rc))
     try:
         if rc is None:
             groups = [np.asarray(g).reshape(-1).tolist() for g in res]
@@ -306,6 +416,10 @@ def chk_group_rows(run, case):
     except Exception:
         bad(run, case, base + " sym=malformed_result", "group_rows result has the wrong shape")
         return
+    if any(len(g) == 0 for g in groups):
+        # a class of equal rows has at least one member: `for g in groups: g[0]` must be safe
+        bad(run, case, "fn=group_rows %s sym=empty_group_returned" % klass(a), "a group without members is returned",
+            got=groups)
     got = fs(groups)
     want = fs(g for g in cls.values() if rc is None or len(g) == rc)
     if got != want:
@@ -321,6 +435,8 @@ def chk_group_rows(run, case):
             sym = "extra_groups"
         else:
             sym = "mismatch"
+        if case.get("cls") and sym in ("missing_groups", "extra_groups", "mismatch"):
+            sym = "groups_differ"
         bad(run, case, base + " sym=" + sym, "groups differ from the classes of equal rows", got=got, want=want)
 
 
@@ -329,16 +445,20 @@ def chk_group(run, case):
 
     a = mk(case)
     mn, mx = case.get("min_len"), case.get("max_len")
-    ok, res = call(run, case, a, grouping.group, a, min_len=mn, max_len=mx)
-    run.case("group", dig(case, a), mn, mx, nontrivial=len(a) >= 2)
+    ok, res = call(run, case, a, grouping.group, a, min_len=npopt(case, "min_len"), max_len=npopt(case, "max_len"))
+    run.case("group", dig(case, a), mn, mx, case.get("min_len_type"), case.get("max_len_type"), case.get("layout"),
+             nontrivial=len(a) >= 2)
     if not ok:
         return
     cls = classes(keys_of(a))
+    if any(len(g) == 0 for g in res):
+        bad(run, case, "fn=group %s sym=empty_group_returned" % klass(a), "a group without members is returned",
+            got=[np.asarray(g).tolist() for g in res])
     got = fs(np.asarray(g).tolist() for g in res)
     want = fs(g for g in cls.values() if (mn is None or len(g) >= mn) and (mx is None or len(g) <= mx))
     if got != want:
-        base = "fn=group %s kind=%s min_len=%s max_len=%s" % (klass(a), a.dtype.kind, "set" if mn is not None else "None",
-                                                              "set" if mx is not None else "None")
+        base = kbase(case, "fn=group %s kind=%s min_len=%s max_len=%s" % (
+            klass(a), a.dtype.kind, "set" if mn is not None else "None", "set" if mx is not None else "None"))
         bad(run, case, base + " sym=mismatch", "groups differ from the classes of equal values", got=got, want=want)
 
 
@@ -348,11 +468,11 @@ def chk_unique_ordered(run, case):
     a = mk(case)
     ri, rv = bool(case.get("return_index")), bool(case.get("return_inverse"))
     ok, res = call(run, case, a, grouping.unique_ordered, a, return_index=ri, return_inverse=rv)
-    run.case("unique_ordered", dig(case, a), ri, rv, nontrivial=len(a) >= 2)
+    run.case("unique_ordered", dig(case, a), ri, rv, case.get("layout"), nontrivial=len(a) >= 2)
     if not ok:
         return
     keys = keys_of(a)
-    base = "fn=unique_ordered %s kind=%s flags=%d%d" % (klass(a), a.dtype.kind, ri, rv)
+    base = kbase(case, "fn=unique_ordered %s kind=%s flags=%d%d" % (klass(a), a.dtype.kind, ri, rv))
     parts = list(res) if (ri or rv) else [res]
     if len(parts) != 1 + ri + rv:
         bad(run, case, base + " sym=malformed_result", "wrong number of return values")
@@ -379,13 +499,14 @@ def chk_unique_bincount(run, case):
 
     a = mk(case)
     ml, rv, rc = int(case.get("minlength", 0)), bool(case.get("return_inverse")), bool(case.get("return_counts"))
-    ok, res = call(run, case, a, grouping.unique_bincount, a, minlength=ml, return_inverse=rv, return_counts=rc)
-    run.case("unique_bincount", a, ml, rv, rc, nontrivial=len(a) >= 2)
+    ok, res = call(run, case, a, grouping.unique_bincount, a, minlength=npopt(dict(case, minlength=ml), "minlength"),
+                   return_inverse=rv, return_counts=rc)
+    run.case("unique_bincount", a, ml, rv, rc, case.get("minlength_type"), case.get("layout"), nontrivial=len(a) >= 2)
     if not ok:
         return
     keys = keys_of(a)
     cls = classes(keys)
-    base = "fn=unique_bincount %s flags=%d%d" % (klass(a), rv, rc)
+    base = kbase(case, "fn=unique_bincount %s flags=%d%d" % (klass(a), rv, rc))
     parts = list(res) if (rv or rc) else [res]
     if len(parts) != 1 + rv + rc:
         bad(run, case, base + " sym=malformed_result", "wrong number of return values")
@@ -411,22 +532,45 @@ def chk_merge_runs(run, case):
 
     a = mk(case)
     digits = case.get("digits")
-    kw = {} if digits is None else {"digits": digits}
+    kw = {} if digits is None else {"digits": npopt(case, "digits")}
     ok, res = call(run, case, a, grouping.merge_runs, a, **kw)
-    run.case("merge_runs", dig(case, a), digits, nontrivial=len(a) >= 2)
+    run.case("merge_runs", dig(case, a), digits, case.get("digits_type"), case.get("layout"), nontrivial=len(a) >= 2)
     if not ok:
         return
     keys = keys_of(a, digits)
     want = [k for i, k in enumerate(keys) if i == 0 or k != keys[i - 1]]
     got = keys_of(np.asarray(res), digits)
     if got != want:
-        raw = [int(x) for x in a.tolist()] if a.dtype.kind != "f" else []
-        # half the range of the integer type: 2^63 for int64, 2^31 for int32 ...
-        half = 8 * a.dtype.itemsize - 1
-        wide = a.dtype.kind == "i" and any(abs(x - y) >= 2**half for x, y in zip(raw, raw[1:]))
         base = "fn=merge_runs %s kind=%s" % (klass(a), a.dtype.kind)
-        if wide:
-            base += " input=adjacent_difference>=2^%d" % half
+        plain = base
+        d = 8 if digits is None else int(digits)
+        if a.dtype.kind in "iu":
+            raw = [int(x) for x in a.tolist()]
+            pairs = [(x, y) for x, y in zip(raw, raw[1:]) if x != y]
+            # integers are compared exactly whatever `digits` says; structural classes of the input:
+            # different neighbours not further apart than 10^-digits (only possible for digits <= 0) ...
+            close = d <= 0 and any(abs(x - y) <= 10 ** (-d) for x, y in pairs)
+            # ... and neighbours whose difference the type cannot hold: half the range of a signed
+            # type (2^63 for int64, 2^31 for int32 ...), any decrease for an unsigned one
+            half = 8 * a.dtype.itemsize - 1
+            wraps = any(abs(x - y) >= 2**half for x, y in pairs) if a.dtype.kind == "i" else any(y < x for x, y in pairs)
+            if case.get("digits_type"):
+                pass  # the option's TYPE is the class (the same call with a plain int is observed next to it)
+            elif digits is not None and d <= 0:
+                base += " digits=nonpositive" + (" input=difference_wraps" if wraps and not close else "")
+            elif a.dtype.kind == "i" and wraps:
+                base += " input=adjacent_difference>=2^%d" % half
+        elif a.dtype.kind == "f":
+            # floats: equal means equal after rounding; class of the input: neighbours in different
+            # cells which are not further apart than one cell (10^-digits)
+            s = Fraction(10) ** d
+            pos = [Fraction(x) * s for x in a.tolist() if x not in (float("inf"), float("-inf"))]
+            near = 1 + Fraction(1, 10**6)  # "one cell" up to the rounding of the subtraction in doubles
+            if len(pos) == len(keys) and any(k != m and abs(p - q) <= near for k, m, p, q in zip(keys, keys[1:], pos, pos[1:])):
+                base += " input=different_cells_within_10^-digits"
+        if base == plain:
+            # none of merge_runs' own input classes: the class the generator named (layout / option type ...)
+            base = kbase(case, base)
         sym = "distinct_values_merged" if len(got) < len(want) else ("repeats_kept" if len(got) > len(want) else "values")
         bad(run, case, base + " sym=" + sym, "result is not the first element of every maximal run", got=got, want=want)
 
@@ -437,12 +581,12 @@ def chk_unique_float(run, case):
     a = mk(case)
     digits = case.get("digits")
     ri, rv = bool(case.get("return_index")), bool(case.get("return_inverse"))
-    ok, res = call(run, case, a, grouping.unique_float, a, return_index=ri, return_inverse=rv, digits=digits)
-    run.case("unique_float", a, digits, ri, rv, nontrivial=len(a) >= 2)
+    ok, res = call(run, case, a, grouping.unique_float, a, return_index=ri, return_inverse=rv, digits=npopt(case, "digits"))
+    run.case("unique_float", a, digits, ri, rv, case.get("digits_type"), case.get("layout"), nontrivial=len(a) >= 2)
     if not ok:
         return
     keys = keys_of(a, digits)
-    base = "fn=unique_float %s kind=%s flags=%d%d" % (klass(a), a.dtype.kind, ri, rv)
+    base = kbase(case, "fn=unique_float %s kind=%s flags=%d%d" % (klass(a), a.dtype.kind, ri, rv))
     parts = list(res) if (ri or rv) else [res]
     if len(parts) != 1 + ri + rv:
         bad(run, case, base + " sym=malformed_result", "wrong number of return values")
@@ -473,10 +617,10 @@ def chk_unique_value_in_row(run, case):
     a = mk(case)
     kw = {"unique": np.unique(a)} if case.get("pass_unique") else {}
     ok, res = call(run, case, a, grouping.unique_value_in_row, a, **kw)
-    run.case("unique_value_in_row", a, bool(kw), nontrivial=len(a) >= 2)
+    run.case("unique_value_in_row", a, bool(kw), case.get("layout"), nontrivial=len(a) >= 2)
     if not ok:
         return
-    base = "fn=unique_value_in_row %s" % klass(a)
+    base = kbase(case, "fn=unique_value_in_row %s" % klass(a))
     res = np.asarray(res)
     if res.shape != a.shape or res.dtype != bool:
         bad(run, case, base + " sym=malformed_result", "result must be a bool array of the input's shape")
@@ -501,7 +645,7 @@ def chk_boolean_rows(run, case):
     a, b = mk(case), mk(case, "b")
     opname = case.get("operation", "intersect1d")
     ok, res = call(run, case, a, grouping.boolean_rows, a, b, operation=getattr(np, opname))
-    run.case("boolean_rows", a, b, opname, nontrivial=len(a) >= 1 and len(b) >= 1)
+    run.case("boolean_rows", a, b, opname, case.get("layout"), case.get("b_layout"), nontrivial=len(a) >= 1 and len(b) >= 1)
     if not ok:
         return
     la, lb = keys_of(a), keys_of(b)
@@ -510,7 +654,9 @@ def chk_boolean_rows(run, case):
     res = np.asarray(res)
     # input class: same / mixed integer types; unsigned values no signed 64 bit integer holds
     big = [x.dtype.kind == "u" and x.size > 0 and int(x.max()) > INT64_MAX for x in (a, b)]
-    if any(big):
+    if case.get("cls"):
+        base = kbase(case, "")
+    elif any(big):
         base = "fn=boolean_rows input=uint64_values>=2^63 a=%s b=%s" % (a.dtype.kind, b.dtype.kind)
     elif a.dtype == b.dtype:
         base = "fn=boolean_rows %s kind=%s op=%s" % (klass(a), a.dtype.kind, opname)
@@ -568,9 +714,11 @@ def chk_blocks(run, case):
     wrap, nz, digits = bool(case.get("wrap")), bool(case.get("only_nonzero")), case.get("digits")
     mxv = np.inf if mx is None else int(mx)
     opt = "wrap=%d nz=%d" % (wrap, nz)
-    ok, res = call(run, case, a, grouping.blocks, a, min_len=mn, max_len=mxv, wrap=wrap, digits=digits,
+    ok, res = call(run, case, a, grouping.blocks, a, min_len=npopt(dict(case, min_len=mn), "min_len"),
+                   max_len=np.inf if mx is None else npopt(case, "max_len"), wrap=wrap, digits=npopt(case, "digits"),
                    only_nonzero=nz, opt=opt)
-    run.case("blocks", dig(case, a), mn, mx, wrap, nz, digits, nontrivial=len(a) >= 2)
+    run.case("blocks", dig(case, a), mn, mx, wrap, nz, digits, case.get("digits_type"), case.get("min_len_type"),
+             case.get("max_len_type"), case.get("layout"), nontrivial=len(a) >= 2)
     if not ok:
         return
     keys = keys_of(a, digits)
@@ -580,6 +728,8 @@ def chk_blocks(run, case):
     except Exception:
         bad(run, case, "fn=blocks %s sym=malformed_result" % opt, "blocks must return a sequence of index arrays")
         return
+    if any(len(b) == 0 for b in got_raw):
+        bad(run, case, "fn=blocks %s sym=empty_block_returned" % klass(a), "a block without members is returned", got=got_raw)
     got_raw = [b for b in got_raw if len(b)]
     got = sorted(tuple(sorted(b)) for b in got_raw)
     want = sorted(tuple(sorted(b)) for b in want_runs)
@@ -610,7 +760,9 @@ def chk_blocks(run, case):
         sym = "extra_block"
     else:
         sym = "missing_block"
-    bad(run, case, "fn=blocks wrap=%d ends=%s sym=%s" % (wrap, ends, sym), "blocks differ from the maximal runs", got=got_raw,
+    if case.get("cls"):
+        sym = "runs_differ" if sym != "self_wrapped_block" else sym
+    bad(run, case, kbase(case, "fn=blocks wrap=%d ends=%s" % (wrap, ends)) + " sym=" + sym, "blocks differ from the maximal runs", got=got_raw,
         want=want_runs)
 
 
@@ -619,7 +771,7 @@ def chk_group_min(run, case):
 
     g, d = mk(case), mk(case, "b")
     ok, res = call(run, case, g, grouping.group_min, g, d)
-    run.case("group_min", g, d, nontrivial=len(g) >= 2)
+    run.case("group_min", g, d, case.get("layout"), case.get("b_layout"), nontrivial=len(g) >= 2)
     if not ok:
         return
     ref = {}
@@ -627,7 +779,7 @@ def chk_group_min(run, case):
         ref[k] = v if k not in ref else min(ref[k], v)
     got = sorted(keys_of(np.asarray(res)))
     if got != sorted(ref.values()):
-        bad(run, case, "fn=group_min %s sym=mismatch" % klass(g), "minima differ from the per-group minimum", got=got,
+        bad(run, case, kbase(case, "fn=group_min %s" % klass(g)) + " sym=mismatch", "minima differ from the per-group minimum", got=got,
             want=sorted(ref.values()))
 
 
@@ -636,14 +788,26 @@ def chk_float_to_int(run, case):
 
     a = mk(case)
     digits = case.get("digits")
-    ok, res = call(run, case, a, grouping.float_to_int, a, digits=digits)
-    run.case("float_to_int", a, digits, nontrivial=a.size >= 2)
+    ok, res = call(run, case, a, grouping.float_to_int, a, digits=npopt(case, "digits"))
+    run.case("float_to_int", a, digits, case.get("digits_type"), case.get("layout"), nontrivial=a.size >= 2)
     if not ok:
         return
     res = np.asarray(res)
-    base = "fn=float_to_int %s kind=%s" % (klass(a), a.dtype.kind)
+    base = kbase(case, "fn=float_to_int %s kind=%s" % (klass(a), a.dtype.kind))
     if res.shape != a.shape or res.dtype.kind not in "iu":
         bad(run, case, base + " sym=malformed_result", "integer array of the input's shape expected")
+    elif inexact_cells(a, digits):
+        # scaled values beyond 2^50: the product in doubles is not the exact cell any more, beyond 2^63 no
+        # int64 holds it - what remains of the statement is the partition (same cell <=> same integer)
+        k2r, r2k = {}, {}
+        for k, r in zip(keys_of(a.reshape(-1), digits), keys_of(res.reshape(-1))):
+            k2r.setdefault(k, set()).add(r)
+            r2k.setdefault(r, set()).add(k)
+        if any(len(v) > 1 for v in r2k.values()):
+            bad(run, case, base + " sym=distinct_values_merged", "values of different cells receive the same integer",
+                got=res.tolist())
+        elif any(len(v) > 1 for v in k2r.values()):
+            bad(run, case, base + " sym=equal_values_split", "equal values receive different integers", got=res.tolist())
     elif keys_of(res) != keys_of(a, digits):
         bad(run, case, base + " sym=wrong_cell", "value is not the rounding cell of the input", got=res.tolist())
 
@@ -767,21 +931,21 @@ def gen_rows(rng, pyr, c):
     return rows, mode
 
 
-def row_suite(run, rows, dtype, shape, tag, digits=None):
-    """Push one row array through every row function and option."""
-    a = np.array(rows, dtype=dtype).reshape(shape)
+def row_suite(run, rows, dtype, shape, tag, digits=None, **extra):
+    """Push one row array through every row function and option (extra: layout / digits_type / cls ...)."""
+    data = rows.tolist() if isinstance(rows, np.ndarray) else rows
+    a = mk(dict(extra, data=data, dtype=dtype, shape=list(shape)))
     rep = representation(run, a, digits)
     run.count("rows:" + tag + ":" + rep)
-    data = a.tolist()
-    observe(run, "hashable_rows", data, dtype, shape, digits=digits)
+    observe(run, "hashable_rows", data, dtype, shape, digits=digits, **extra)
     for keep in (False, True):
-        observe(run, "unique_rows", data, dtype, shape, digits=digits, keep_order=keep)
+        observe(run, "unique_rows", data, dtype, shape, digits=digits, keep_order=keep, **extra)
     for rc in (None, 1, 2, 3):
-        observe(run, "group_rows", data, dtype, shape, digits=digits, require_count=rc)
+        observe(run, "group_rows", data, dtype, shape, digits=digits, require_count=rc, **extra)
     if not (a.dtype.kind == "u" and a.size and int(a.max()) > INT64_MAX):
         # float_to_int returns int64: unsigned values above 2^63-1 have no image (they wrap one-to-one,
         # which the partition checks above do judge)
-        observe(run, "float_to_int", data, dtype, shape, digits=digits)
+        observe(run, "float_to_int", data, dtype, shape, digits=digits, **extra)
 
 
 def float_cells(rng, cells, digits, spread=0.3):
@@ -842,6 +1006,267 @@ def fixed_cases(run):
     observe(run, "group_min", [0, 1, 0, 1, 2, 2, 0, 1], i64, (8,), b=ext, b_shape=[8])
 
 
+# --------------------------------------------------------------------------- classes added after review round 4
+
+NP_INTS = ("int8", "int16", "int32", "int64", "uint8", "uint16", "uint64")
+
+
+def safe_floats(x, dtype, digits):
+    """
+    The values as `dtype` (float16 / float32 / float64); an element whose EXACT value is closer than
+    0.2 cell to a rounding boundary is replaced by zero so that its cell is unambiguous.
+    """
+    a = np.array(x, dtype=dtype)
+    s = Fraction(10) ** (8 if digits is None else int(digits))
+    flat = a.reshape(-1)
+    for i, v in enumerate(flat.tolist()):
+        if v in (float("inf"), float("-inf")) or v != v or abs((Fraction(v) * s) % 1 - Fraction(1, 2)) < Fraction(1, 5):
+            flat[i] = 0
+    return a
+
+
+def float_suite(run, x, dtype, digits, tag, rows=True, **extra):
+    """One float array (1-D or rows) through every function that takes `digits`."""
+    x = np.asarray(x)
+    data = x.tolist()
+    if rows:
+        row_suite(run, data, dtype, x.shape, tag, digits=digits, **extra)
+    flat = x.reshape(-1)
+    fl = flat.tolist()
+    observe(run, "unique_float", fl, dtype, flat.shape, digits=digits, return_index=True, return_inverse=True, **extra)
+    observe(run, "blocks", fl, dtype, flat.shape, min_len=1, max_len=None, wrap=False, digits=digits, **extra)
+    observe(run, "blocks", fl, dtype, flat.shape, min_len=2, max_len=None, wrap=True, only_nonzero=True, digits=digits, **extra)
+    observe(run, "merge_runs", fl, dtype, flat.shape, digits=digits, **extra)
+
+
+def layout_cases(run, rows=None, dtype="int64"):
+    """
+    The same values in every memory layout (Fortran order, every second column / row of a wider array,
+    reversed strides, swapped byte order) through every function; both operands of the two-array ones.
+    """
+    if rows is None:
+        todo = [([[0, 1, 2], [3, 4, 5], [0, 1, 2], [6, 7, 8]], dt) for dt in ("int64", "int8", "uint16")]
+        todo += [([[0, 1], [1, 0], [0, 1], [2, 2], [1, 0]], "int32"), ([[1, 0, 1, 0, 1], [0, 0, 0, 0, 1], [1, 0, 1, 0, 1]], "bool"),
+                 ([[3, 1, 4, 1, 5], [9, 2, 6, 5, 3], [3, 1, 4, 1, 5]], "uint64")]
+    else:
+        todo = [(rows, dtype)]
+    for rows_, dt in todo:
+        n, c = len(rows_), len(rows_[0])
+        h = max(1, n // 2)
+        for lay in LAYOUTS_2D:
+            cls = "layout=" + LAYOUT_CLASS[lay]
+            row_suite(run, rows_, dt, (n, c), "layout_" + lay, layout=lay, cls=cls)
+            if dt != "bool":
+                observe(run, "unique_value_in_row", rows_, dt, (n, c), layout=lay, cls=cls)
+                for op in ("intersect1d", "setdiff1d"):
+                    for la, lb in ((lay, None), (None, lay), (lay, lay)):
+                        observe(run, "boolean_rows", rows_, dt, (n, c), b=rows_[h:] + [[1] * c], b_shape=[n - h + 1, c],
+                                operation=op, layout=la, b_layout=lb, cls=cls)
+            run.state("layout", (lay, dt))
+    if rows is not None:
+        return
+    col = [1, 1, 2, 2, 3, 1, 1, 0, 0]
+    n = len(col)
+    for dt in ("int64", "uint8", "int16"):
+        for lay in LAYOUTS_1D:
+            cls = "layout=" + LAYOUT_CLASS[lay]
+            observe(run, "merge_runs", col, dt, (n,), layout=lay, cls=cls)
+            observe(run, "group", col, dt, (n,), min_len=1, max_len=3, layout=lay, cls=cls)
+            observe(run, "unique_ordered", col, dt, (n,), return_index=True, return_inverse=True, layout=lay, cls=cls)
+            for wrap in (False, True):
+                observe(run, "blocks", col, dt, (n,), min_len=1, wrap=wrap, only_nonzero=wrap, layout=lay, cls=cls)
+            observe(run, "group_min", col, dt, (n,), b=col[::-1], b_shape=[n], layout=lay, b_layout=lay, cls=cls)
+            if dt == "int64":
+                observe(run, "unique_bincount", col, dt, (n,), return_inverse=True, return_counts=True, layout=lay, cls=cls)
+            row_suite(run, col, dt, (n,), "layout_1d_" + lay, layout=lay, cls=cls)
+    for lay in LAYOUTS_2D:
+        x = [[1.0, 2.0], [3.0, 4.0], [1.0, 2.0], [1.0, 3.0]]
+        float_suite(run, x, "float64", 1, "layout_float_" + lay, layout=lay, cls="layout=" + LAYOUT_CLASS[lay])
+
+
+def integer_digits_cases(run):
+    """
+    merge_runs / blocks on integers with every value of `digits` (integers are compared exactly whatever it
+    is): neighbours one unit apart, ten apart, and neighbours at opposite ends of the type's range.
+    """
+    for dt, (lo, hi) in INT_DTYPES.items():
+        ends = [hi, lo, hi, lo + 3, hi - 2, hi - 2, lo]
+        near = [5, 6, 7, 7, 17, 20, 5, 4]
+        for digits in (None, 0, -1, -2, 1, 3):
+            for col, tag in ((ends, "ends"), (near, "near")):
+                observe(run, "merge_runs", col, dt, (len(col),), digits=digits)
+                observe(run, "blocks", col, dt, (len(col),), min_len=1, digits=digits)
+        run.state("integer_digits_dtype", dt)
+    for digits in (0, -1):
+        observe(run, "merge_runs", [2**64 - 2, 0, 0, 5], "uint64", (4,), digits=digits)
+        for fn in ("unique_rows", "group_rows", "hashable_rows"):
+            observe(run, fn, [[1, 2], [2, 2], [1, 2], [11, 2]], "int64", (4, 2), digits=digits)
+
+
+def big_float_cases(run, pyr=None, digits_list=(None, 0, 3, 12, 19)):
+    """
+    Float rows whose value * 10^digits is on both sides of 2^63 (what an int64 holds), far apart from each
+    other (>= 1e-3 relative) so that no rounding question arises; +-inf next to finite values.  Every finite
+    value * 10^digits stays inside the range of a double (1e280 * 1e19): a product that overflows to inf is not
+    judged against inf.  Deterministic when pyr is None.
+    """
+    import random
+
+    pyr = pyr or random.Random(6)
+    for digits in digits_list:
+        d = 8 if digits is None else digits
+        T = float(2**63) / float(10**d)
+        below = [T * f for f in (0.4, 0.999, 0.25)]
+        above = [T * f for f in (1.001, 2.5, 1e3, 1e9)]
+        small = [0.0, 1.0, -1.0, 3.0] if d <= 12 else [0.0]  # whole numbers: cell centres for every digits >= 0
+        for kind in ("below", "above", "infinite"):
+            pool = {"below": below + small, "above": above + below[:1] + small,
+                    "infinite": [float("inf"), float("-inf"), above[0], 1e280] + small}[kind]
+            pool = pool + [-v for v in pool if v > 0]
+            cls = {"below": None, "above": "input=scaled_value>=2^63", "infinite": "input=infinite"}[kind]
+            extra = {} if cls is None else {"cls": cls}
+            for c in (1, 2, 3, 5):
+                rows = [[pyr.choice(pool) for _ in range(c)] for _ in range(5)]
+                if kind != "below":
+                    # at least two different rows that differ only in values no int64 holds
+                    rows[0][0], rows[1][0] = pool[0], pool[1]
+                    rows[1][1:] = rows[0][1:]
+                rows += [list(rows[0]), list(rows[2])]
+                pyr.shuffle(rows)
+                row_suite(run, rows, "float64", (len(rows), c), "bigfloat_" + kind, digits=digits, **extra)
+            col = [pool[0], pool[1], pool[1], pool[2], pool[0], pool[0], pool[-1]]
+            float_suite(run, col, "float64", digits, "bigfloat_1d_" + kind, **extra)
+            run.state("big_float", (kind, digits))
+
+
+def narrow_float_cases(run):
+    """
+    float16 / float32 rows: the SAME numbers a float64 array could hold (the oracle reads their exact values),
+    at magnitudes where value * 10^digits needs more bits than the narrow type has.
+    """
+    f16 = [[1, 2], [3, 4], [1, 2], [5, 6]]
+    for digits in (None, 0, 1, 3):
+        float_suite(run, safe_floats(f16, "float16", digits), "float16", digits, "float16", cls="input=float16")
+        float_suite(run, safe_floats([0.5, 0.5, 1.25, 2.0, 2.0, 0.5], "float16", digits), "float16", digits, "float16_1d",
+                    cls="input=float16")
+    # chains of neighbouring float32 values: 6e-8 apart near 0.7 (6 cells at 8 digits), 7.6e-6 near 100 (7.6 cells at 6)
+    for start, digits in ((0.7, None), (100.3, 6), (3.3, 7), (0.7, 3), (1000.25, 3)):
+        chain = [np.float32(start)]
+        for _ in range(5):
+            chain.append(np.nextafter(chain[-1], np.float32(np.inf)))
+        chain = [float(v) for v in chain]
+        rows = [[chain[0], 0.0], [chain[1], 0.0], [chain[2], 0.0], [chain[0], 0.0], [chain[4], 1.0], [chain[5], 1.0]]
+        float_suite(run, safe_floats(rows, "float32", digits), "float32", digits, "float32", cls="input=float32")
+        col = [chain[0], chain[0], chain[1], chain[2], chain[2], chain[3], chain[0]]
+        float_suite(run, safe_floats(col, "float32", digits), "float32", digits, "float32_1d", cls="input=float32")
+    run.state("narrow_float", "fixed")
+
+
+def numpy_option_cases(run):
+    """
+    Integer options given as numpy integer scalars of every width (`digits: Optional[Integer]` in the
+    signatures; `isinstance(digits, (int, np.integer))` in float_to_int): the result must be the one of the
+    plain int.
+    """
+    cells = [[1, 0], [2, 0], [3, 0], [1, 0], [2, 1], [-3, 7]]
+    for digits in (-1, 0, 1, 3, 5, 10):
+        x = (np.array(cells) + np.array([[0.2, -0.1]])) / (Fraction(10) ** digits)
+        x = np.array(x, dtype=np.float64)
+        col = np.array([(10 * k + 0.2) / (Fraction(10) ** digits) for k in (1, 1, 2, 3, 3, 1, -3)], dtype=np.float64)
+        for t in (None,) + NP_INTS:
+            if t is not None and t[0] == "u" and digits < 0:
+                continue
+            extra = {} if t is None else {"digits_type": t, "cls": "option=digits_as_numpy_integer"}
+            float_suite(run, x, "float64", digits, "npdigits", **extra)
+            float_suite(run, col, "float64", digits, "npdigits_1d", **extra)
+            ints = [400, 400, 500, 700, 700, 400]  # further apart than 10^-digits for every digits here
+            observe(run, "merge_runs", ints, "int64", (6,), digits=digits, **extra)
+            observe(run, "blocks", ints, "int64", (6,), min_len=1, digits=digits, **extra)
+            run.state("numpy_digits", (digits, t))
+    # counts: only the options annotated `Integer` (group min_len / max_len, unique_bincount minlength);
+    # group_rows(require_count=) and blocks(min_len=, max_len=) do not declare numpy scalars
+    col = [0, 0, 1, 2, 2, 2, 0, 0]
+    for t in NP_INTS:
+        cls = "option=counts_as_numpy_integer"
+        for mn, mx in ((1, 2), (2, 3), (2, None), (None, 2), (3, 3)):
+            tt = {k + "_type": t for k, v in (("min_len", mn), ("max_len", mx)) if v is not None}
+            observe(run, "group", col, "int64", (8,), min_len=mn, max_len=mx, cls=cls, **tt)
+        observe(run, "unique_bincount", col, "int64", (8,), minlength=4, minlength_type=t, return_inverse=True,
+                return_counts=True, cls=cls)
+
+
+def rounding_run_cases(run):
+    """
+    merge_runs / blocks on floats whose neighbours lie in DIFFERENT cells but not further apart than one cell
+    (10^-digits): slow ramps (steps of a fraction of a cell), steps of exactly one cell, and neighbours on both
+    sides of a boundary.  Every value is >= 0.2 cell away from a rounding boundary.
+    """
+    for digits in (None, 2, 0, -1):
+        s = Fraction(10) ** (8 if digits is None else digits)
+        for step in (0.29, 0.45, 1.0, 0.6):
+            pos = [k * step for k in range(40)]
+            pos = [p for p in pos if abs(p % 1 - 0.5) >= 0.25]
+            x = safe_floats([float(Fraction(p) / s) for p in pos], "float64", digits)
+            observe(run, "merge_runs", x.tolist(), "float64", x.shape, digits=digits)
+            observe(run, "blocks", x.tolist(), "float64", x.shape, min_len=1, digits=digits)
+        pos = [0.3, 0.7, 1.3, 1.3, 1.7, 2.25, 2.25, 0.3]
+        x = safe_floats([float(Fraction(p) / s) for p in pos], "float64", digits)
+        observe(run, "merge_runs", x.tolist(), "float64", x.shape, digits=digits)
+    run.state("rounding_runs", "fixed")
+
+
+def random_review(run):
+    """Random members of the round-4 classes (the fixed members above run in every process)."""
+    rng, pyr = run.rng, run.pyrng
+    k = pyr.choice(["layout", "layout", "bigfloat", "narrowfloat", "narrowfloat", "ramp", "ramp"])
+    run.count("random_review:" + k)
+    if k == "layout":
+        c = pyr.choice([1, 2, 3, 4, 5])
+        rows, _ = gen_rows(rng, pyr, c)
+        layout_cases(run, rows[:8], "int64")
+    elif k == "bigfloat":
+        big_float_cases(run, pyr=pyr, digits_list=(pyr.choice([None, 0, 3, 6, 12, 15, 19]),))
+    elif k == "narrowfloat":
+        dt = pyr.choice(["float32", "float32", "float16"])
+        digits = pyr.choice([None, 3, 6, 7] if dt == "float32" else [None, 0, 1, 3])
+        one = np.dtype(dt).type
+        base = one(pyr.choice([0.7, 3.3, 100.3, 1000.25, 12345.5] if dt == "float32" else [0.7, 1.0, 3.25, 12.5, 100.0]))
+        chain = [base]
+        for _ in range(8):
+            chain.append(np.nextafter(chain[-1], one(np.inf)))
+        chain = [float(v) for v in chain] + [0.0, 1.0]
+        c = pyr.choice([1, 2, 3, 5])
+        rows = [[pyr.choice(chain) for _ in range(c)] for _ in range(int(rng.integers(3, 7)))]
+        rows += [list(rows[0]), list(rows[1])]
+        pyr.shuffle(rows)
+        float_suite(run, safe_floats(rows, dt, digits), dt, digits, dt, cls="input=" + dt)
+        col = [pyr.choice(chain) for _ in range(int(rng.integers(3, 8)))]
+        col = [v for v in col for _ in range(int(rng.integers(1, 3)))]
+        float_suite(run, safe_floats(col, dt, digits), dt, digits, dt + "_1d", cls="input=" + dt)
+    else:
+        digits = pyr.choice([None, 0, 1, 2, 5, -1])
+        s = Fraction(10) ** (8 if digits is None else digits)
+        step = Fraction(int(rng.integers(5, 101)), 100) * pyr.choice([1, -1])
+        start = int(rng.integers(-5, 6))
+        pos = [start + k_ * step for k_ in range(int(rng.integers(5, 40)))]
+        pos = [q for q in pos if abs(q % 1 - Fraction(1, 2)) >= Fraction(1, 4)]
+        pos = [q for q in pos for _ in range(int(rng.integers(1, 3)))]
+        if len(pos) >= 2:
+            x = safe_floats([float(q / s) for q in pos], "float64", digits)
+            observe(run, "merge_runs", x.tolist(), "float64", x.shape, digits=digits)
+            observe(run, "blocks", x.tolist(), "float64", x.shape, min_len=int(rng.integers(1, 3)), digits=digits)
+
+
+def review_classes(run):
+    layout_cases(run)
+    integer_digits_cases(run)
+    big_float_cases(run)
+    narrow_float_cases(run)
+    numpy_option_cases(run)
+    rounding_run_cases(run)
+    run.count("review_round4_classes")
+
+
 BLOCK_GRID = [
     (mn, mx, wrap, nz)
     for mn in (1, 2, 3)
@@ -868,6 +1293,8 @@ def exhaustive_suite(run, arr):
         observe(run, "blocks", fl, "float64", sh, min_len=mn, max_len=None, wrap=wrap, only_nonzero=nz, digits=1)
     observe(run, "merge_runs", data, "int64", sh)
     observe(run, "merge_runs", data, "int32", sh, digits=2)
+    observe(run, "merge_runs", data, "int64", sh, digits=0)
+    observe(run, "merge_runs", data, "uint8", sh, digits=-1)
     observe(run, "merge_runs", [v * 1.0 + 0.004 * ((i % 3) - 1) for i, v in enumerate(data)], "float64", sh, digits=1)
     for mn in (None, 1, 2, 3):
         for mx in (None, 1, 2, 3):
@@ -916,6 +1343,8 @@ def random_rows(run):
         return narrow_1d(run)
     if x < 0.163:
         return long_suite(run, int(rng.integers(300, 30000)))
+    if x < 0.19:
+        return random_review(run)
     r = int(rng.integers(10))
     if r <= 5:
         c = pyr.choice([1, 2, 2, 2, 3, 3, 4, 4, 5, 6])
@@ -1042,7 +1471,7 @@ def narrow_1d(run):
     col = [v for v in col for _ in range(int(rng.integers(1, 3)))]
     n = len(col)
     run.state("narrow_1d_dtype", dt)
-    observe(run, "merge_runs", col, dt, (n,))
+    observe(run, "merge_runs", col, dt, (n,), digits=pyr.choice([None, None, 0, -1, -3, 2]))
     observe(run, "group", col, dt, (n,), min_len=pyr.choice([None, 1, 2]), max_len=pyr.choice([None, 2, 3]))
     observe(run, "unique_ordered", col, dt, (n,), return_index=True, return_inverse=True)
     observe(run, "blocks", col, dt, (n,), min_len=int(rng.integers(1, 3)), wrap=bool(rng.integers(2)),
@@ -1123,6 +1552,7 @@ def long_inputs(run):
 
 def workload(run):
     fixed_cases(run)
+    review_classes(run)
     long_inputs(run)
     lmax = 6 if run.tier == "quick" else 8
     idx, mine, complete = 0, 0, True
